@@ -35,6 +35,9 @@ CLAIMS["C01"] = ("must-pass-through on the credential/presentation verifier and 
 CLAIMS["C11"] = ("add-only inventories (no Delete on revocation models, setBit(true) only, upsert-all-columns), must-pass-through on network revocation registration and status-list verification, transaction-closure / row-lock / loaded-record ordering of every status list re-issue, locked index hand-out",
   "Static decision that revocations and set bits are never removed, that only issuer-signed revocations are stored, that a revoked bit fails verification from the named and verified list only, and that every re-issue happens in a transaction from freshly loaded revocations under the row lock. Exhaustive over the current source.",
   "Trusts go/ssa, gorm Preload/transaction semantics and SQL row locks; actual uniqueness under concurrency is not decided.")
+CLAIMS["C09"] = ("ownership of did:nuts store writes + must-pass-through on the create/update handlers and the callback + provenance of the searched key list and controller list + validator-table completeness + inner validator gates (incl. kid derived from key material)",
+  "Static decision that a network did:nuts document version is stored only after DID==thumbprint (creation) or a controller capabilityInvocation key match resolved as of the referenced transactions (update), through integrity/decoding/validator gates whose table is complete. Found and repaired the kid-in-JWK bypass. Exhaustive over the current source.",
+  "Trusts go/ssa and go-did's W3C validator; relationship-embedded verification methods are outside the verification-method validator (observation).")
 PENDING = {}
 
 def main():
